@@ -259,7 +259,7 @@ protected:
       for (auto p : exp) {
         Wt coeff(ntow::convert(p.first, overflow));
         if (overflow) {
-          continue;
+          return; // dropping the term would be unsound
         }
         if (coeff < Wt(0)) {
           // Can't do anything with negative coefficients.
@@ -268,7 +268,7 @@ protected:
             goto assign_ub_finish;
           exp_ub += ntow::convert(*(y_lb.number()), overflow) * coeff;
           if (overflow) {
-            continue;
+            return; // dropping the term would be unsound
           }
         } else {
           variable_t y(p.second);
@@ -280,7 +280,7 @@ protected:
           } else {
             Wt ymax(ntow::convert(*(y_ub.number()), overflow));
             if (overflow) {
-              continue;
+              return; // dropping the term would be unsound
             }
             exp_ub += ymax * coeff;
             ub_terms.push_back({y, ymax});
@@ -311,7 +311,7 @@ protected:
     for (auto p : exp) {
       Wt coeff(ntow::convert(p.first, overflow));
       if (overflow) {
-        continue;
+        return; // dropping the term would be unsound
       }
       if (coeff < Wt(0)) {
         // Again, can't do anything with negative coefficients.
@@ -320,7 +320,7 @@ protected:
           goto assign_lb_finish;
         exp_lb += (ntow::convert(*(y_ub.number()), overflow)) * coeff;
         if (overflow) {
-          continue;
+          return; // dropping the term would be unsound
         }
       } else {
         variable_t y(p.second);
@@ -332,7 +332,7 @@ protected:
         } else {
           Wt ymin(ntow::convert(*(y_lb.number()), overflow));
           if (overflow) {
-            continue;
+            return; // dropping the term would be unsound
           }
           exp_lb += ymin * coeff;
           lb_terms.push_back({y, ymin});
@@ -382,7 +382,7 @@ protected:
     for (auto p : exp) {
       Wt coeff(ntow::convert(p.first, overflow));
       if (overflow) {
-        continue;
+        return; // dropping the term would be unsound
       }
       if (coeff > Wt(0)) {
         variable_t y(p.second);
@@ -395,7 +395,7 @@ protected:
         } else {
           Wt ymin(ntow::convert(*(y_lb.number()), overflow));
           if (overflow) {
-            continue;
+            return; // dropping the term would be unsound
           }
           // Coeff is negative, so it's still add
           exp_ub -= ymin * coeff;
@@ -412,7 +412,7 @@ protected:
         } else {
           Wt ymax(ntow::convert(*(y_ub.number()), overflow));
           if (overflow) {
-            continue;
+            return; // dropping the term would be unsound
           }
           exp_ub -= ymax * coeff;
           neg_terms.push_back({{-coeff, y}, ymax});
